@@ -118,8 +118,9 @@ def rule_r2(rep, program: Program):
     return r
 
 
-def rule_r3(rep, program: Program):
-    r = rep.rule("R3", "each derivative method equals the table derivative of the corresponding value method (per class and density convention)", floor=40)
+def rule_r3(rep, program: Program, prop=PROP, rule="R3"):
+    PROP = prop  # noqa: N806
+    r = rep.rule(rule, "each derivative method equals the table derivative of the corresponding value method (per class and density convention)", floor=40)
     for k in c09.system_classes(program):
         for flags in variants(k):
             ex = MethodExpander(program, k, EXPAND, flags)
@@ -214,6 +215,76 @@ def rule_r5(rep, program: Program):
     return r
 
 
+def rule_r10(rep, program: Program):
+    """The kinetic energy is 0.5 p' M^-1 p for the metric M the caller passed.  A constructor may pick a matrix *class*
+    from the argument's type and dimensionality, never from the argument's values: a value test (np.allclose against the
+    diagonal part, a sparsity or symmetry probe with tolerances) silently replaces some metrics by a different matrix."""
+    import ast
+
+    from ..model import call_name, execution_condition, is_self_attr, norm
+
+    r = rep.rule("R10", "system constructors choose the metric's matrix class by type / dimensionality only and hand the argument itself to it (no value-dependent substitution of the metric)", floor=3)
+
+    def type_test(t, param) -> bool:
+        if isinstance(t, ast.BoolOp):
+            return all(type_test(v, param) for v in t.values)
+        if isinstance(t, ast.UnaryOp) and isinstance(t.op, ast.Not):
+            return type_test(t.operand, param)
+        if isinstance(t, ast.Compare) and len(t.ops) == 1:
+            left, right = t.left, t.comparators[0]
+            if isinstance(t.ops[0], (ast.Is, ast.IsNot)) and norm(right) == "None":
+                return True
+            for side in (left, right):
+                if isinstance(side, ast.Attribute) and side.attr in ("ndim", "size", "dtype") and norm(side.value) == param:
+                    return True
+                if isinstance(side, ast.Subscript) and isinstance(side.value, ast.Attribute) and side.value.attr == "shape" and norm(side.value.value) == param:
+                    return True
+                if isinstance(side, ast.Call) and call_name(side) == "len" and side.args and norm(side.args[0]) in (param, f"{param}.shape"):
+                    return True
+            return False
+        if isinstance(t, ast.Call) and call_name(t) in ("isinstance", "np.isscalar", "callable", "hasattr", "np.ndim"):
+            return True
+        if isinstance(t, ast.Name):
+            return False
+        return False
+
+    n_sites = 0
+    for k in c09.system_classes(program):
+        init = k.methods.get("__init__")
+        if init is None or "metric" not in init.params:
+            continue
+        param = "metric"
+        for a in ast.walk(init.node):
+            if not (isinstance(a, ast.Assign) and any(is_self_attr(t) and t.attr in ("metric", "_metric") for t in a.targets)):
+                continue
+            n_sites += 1
+            conds = execution_condition(init.node, a, stop_at=(ast.FunctionDef,))
+            r.inst({"class": k.name, "store": norm(a)[:70], "under": [("" if tr else "not ") + norm(t)[:50] for t, tr in conds]})
+            exact_guard = False
+            for t, _tr in conds:
+                if type_test(t, param):
+                    continue
+                names = {call_name(c) for c in ast.walk(t) if isinstance(c, ast.Call)}
+                if names & {"np.array_equal", "np.array_equiv"} and not names & {"np.allclose", "np.isclose", "np.round", "np.around"}:
+                    # an exact comparison of the argument with the representation substituted for it: same operator
+                    exact_guard = True
+                    continue
+                if not names & {"np.allclose", "np.isclose", "np.round", "np.around", "np.count_nonzero", "np.any", "np.all", "np.linalg.norm", "np.abs", "abs", "np.max", "max"} and not any(isinstance(c, ast.Compare) for c in ast.walk(t)):
+                    raise AnalysisError(f"{k.name}.__init__: the test `{norm(t)[:60]}` selecting the metric representation is neither a type test nor a recognised value test")
+                if True:
+                    r.violate(PROP, f"{k.name}.__init__:metric-chosen-by-value:{norm(t)[:40]}", f"which matrix represents the metric depends on `{norm(t)}` - a test of the argument's values, not of its type or dimensionality: for some arrays the system's metric is not the one passed in, so h2 / dh2_dmom no longer equal 0.5 p' M^-1 p and M^-1 p for the caller's M", node=a, file=init.file)
+            v = a.value
+            if isinstance(v, ast.Call) and v.args:
+                arg = v.args[0]
+                if norm(arg) != param and not exact_guard and not (isinstance(arg, ast.Call) and call_name(arg) in ("np.asarray", "np.array", "np.ascontiguousarray") and arg.args and norm(arg.args[0]) == param):
+                    r.violate(PROP, f"{k.name}.__init__:metric-from-derived-array:{norm(arg)[:40]}", f"the metric matrix is built from `{norm(arg)[:60]}` rather than from the argument itself", node=a, file=init.file)
+            elif not (isinstance(v, ast.Name) and v.id == param) and not isinstance(v, ast.Call):
+                r.violate(PROP, f"{k.name}.__init__:metric={norm(v)[:40]}", f"the metric attribute is set to `{norm(v)[:60]}`, not to the argument", node=a, file=init.file)
+    if n_sites == 0:
+        raise AnalysisError("no system constructor storing a `metric` argument found")
+    return r
+
+
 def run(rep, program: Program, tier: str) -> None:
     rep.explanation = (
         "Every Hamiltonian method of every concrete system class is resolved under the class's MRO "
@@ -242,3 +313,4 @@ def run(rep, program: Program, tier: str) -> None:
 
     rep.isolate(c11.rule_r1, rep, program, prop=PROP, rule="R8")
     rep.isolate(c11.rule_r2, rep, program, prop=PROP, rule="R9")
+    rep.isolate(rule_r10, rep, program)
